@@ -242,6 +242,14 @@ Proof.
 Qed.
 Print Assumptions C11_supply_neutral_under_slash_refuted.
 
+(* The property at full strength, read literally: everything proved above PLUS the in-between bound counted in currently
+   delegated locks PLUS supply neutrality across validator slashes.  It is false (of the model and of the code): the two
+   extra conjuncts are the refuted ones; what is proved instead is stated in the _partial theorems and in C11_budget_rule. *)
+Definition C11_full : Prop := C11_drift_literal /\ C11_supply_neutral_under_slash.
+Theorem C11_full_refuted : ~ C11_full.
+Proof. intros [H _]. exact (C11_drift_literal_refuted H). Qed.
+Print Assumptions C11_full_refuted.
+
 (* non-vacuity of the slashing part of [reachable]: the state after the 10% slash of the example above is reachable, the lock
    lost 10% and kept its staking marker *)
 Definition sl_es := [EOp (OLock 0 0 1000000 100); EOp (ODelegate 0 1 0); ESlash [] 0 (P18 / 10)].
